@@ -68,11 +68,9 @@ package errbase
 //@   purecalls
 //@   requires completeLeaf(enc)
 //@   ensures result != nil
-//@   ensures typeis(result, *opaqueLeaf) ==> result.(*opaqueLeaf).msg == enc.Message && result.(*opaqueLeaf).details == enc.Details
-//@   ensures typeis(result, *opaqueLeafCauses) ==> result.(*opaqueLeafCauses).msg == enc.Message && result.(*opaqueLeafCauses).details == enc.Details && len(result.(*opaqueLeafCauses).causes) == len(enc.MultierrorCauses)
-//@   ensures typeis(result, *opaqueLeafCauses) ==> (forall i int :: 0 <= i && i < len(enc.MultierrorCauses) ==> result.(*opaqueLeafCauses).causes[i] == decOf(deref(enc.MultierrorCauses[i])))
+//@   ensures ((leafDecoders.has(enc.Details.ErrorTypeMark.FamilyName) && callres0(leafDecoders[enc.Details.ErrorTypeMark.FamilyName], ctx, enc.Message, enc.Details.ReportablePayload, payloadOf(enc.Details.FullDetails)) == nil) || (!leafDecoders.has(enc.Details.ErrorTypeMark.FamilyName) && !multiCauseDecoders.has(enc.Details.ErrorTypeMark.FamilyName) && !hasMethod(typeof(payloadOf(enc.Details.FullDetails)), "Error() string"))) && len(enc.MultierrorCauses) == 0 ==> typeis(result, *opaqueLeaf) && result.(*opaqueLeaf).msg == enc.Message && result.(*opaqueLeaf).details == enc.Details
+//@   ensures ((leafDecoders.has(enc.Details.ErrorTypeMark.FamilyName) && callres0(leafDecoders[enc.Details.ErrorTypeMark.FamilyName], ctx, enc.Message, enc.Details.ReportablePayload, payloadOf(enc.Details.FullDetails)) == nil) || (!leafDecoders.has(enc.Details.ErrorTypeMark.FamilyName) && !multiCauseDecoders.has(enc.Details.ErrorTypeMark.FamilyName) && !hasMethod(typeof(payloadOf(enc.Details.FullDetails)), "Error() string"))) && len(enc.MultierrorCauses) > 0 ==> typeis(result, *opaqueLeafCauses) && result.(*opaqueLeafCauses).msg == enc.Message && result.(*opaqueLeafCauses).details == enc.Details && len(result.(*opaqueLeafCauses).causes) == len(enc.MultierrorCauses) && (forall i int :: 0 <= i && i < len(enc.MultierrorCauses) ==> result.(*opaqueLeafCauses).causes[i] == decOf(deref(enc.MultierrorCauses[i])))
 //@   ensures (leafDecoders.has(enc.Details.ErrorTypeMark.FamilyName) && callres0(leafDecoders[enc.Details.ErrorTypeMark.FamilyName], ctx, enc.Message, enc.Details.ReportablePayload, payloadOf(enc.Details.FullDetails)) != nil) ==> result == callres0(leafDecoders[enc.Details.ErrorTypeMark.FamilyName], ctx, enc.Message, enc.Details.ReportablePayload, payloadOf(enc.Details.FullDetails))
-//@   ensures (!leafDecoders.has(enc.Details.ErrorTypeMark.FamilyName) && !multiCauseDecoders.has(enc.Details.ErrorTypeMark.FamilyName) && !hasMethod(typeof(payloadOf(enc.Details.FullDetails)), "Error() string")) ==> (len(enc.MultierrorCauses) > 0 ? typeis(result, *opaqueLeafCauses) : typeis(result, *opaqueLeaf))
 //@   loop 1: invariant forall j int :: 0 <= j && j < $n ==> causes[j] == decOf(deref(enc.MultierrorCauses[j]))
 //@   loop 2: invariant forall j int :: 0 <= j && j < $n ==> causes[j] == decOf(deref(enc.MultierrorCauses[j]))
 
@@ -227,7 +225,7 @@ package errbase
 //@ func encodeWrapper
 //@   props C01 C02 C04 C11
 //@   purecalls
-//@   requires err != nil && cause != nil
+//@   requires err != nil && cause != nil && cause == cause1(err)
 //@   ensures wrapperOf(result) != nil && leafOf(result) == nil && completeWrapper(wrapperOf(result))
 //@   ensures wrapperOf(result).Cause == encOf(cause)
 //@   ensures typeis(err, *opaqueWrapper) ==> wrapperOf(result).Message == err.(*opaqueWrapper).prefix && wrapperOf(result).Details == err.(*opaqueWrapper).details && wrapperOf(result).MessageType == err.(*opaqueWrapper).messageType
@@ -238,7 +236,7 @@ package errbase
 //@ func encodeLeaf
 //@   props C01 C02 C04 C11 C13
 //@   purecalls
-//@   requires err != nil
+//@   requires err != nil && cause1(err) == nil
 //@   requires forall i int :: 0 <= i && i < len(causes) ==> causes[i] != nil
 //@   ensures leafOf(result) != nil && wrapperOf(result) == nil && completeLeaf(leafOf(result))
 //@   ensures len(leafOf(result).MultierrorCauses) == len(causes)
@@ -248,4 +246,4 @@ package errbase
 //@   ensures (!typeis(err, *opaqueLeaf) && !typeis(err, *opaqueLeafCauses)) ==> leafOf(result).Details.OriginalTypeName == fullNameT(typeof(err)) && leafOf(result).Details.ErrorTypeMark.FamilyName == keyOf(err) && leafOf(result).Details.ErrorTypeMark.Extension == extOf(err)
 //@   ensures (!typeis(err, *opaqueLeaf) && !typeis(err, *opaqueLeafCauses) && leafEncoders.has(keyOf(err))) ==> leafOf(result).Message == callres0(leafEncoders[keyOf(err)], ctx, err) && leafOf(result).Details.ReportablePayload == callres1(leafEncoders[keyOf(err)], ctx, err) && leafOf(result).Details.FullDetails == (callres2(leafEncoders[keyOf(err)], ctx, err) == nil ? nil : anyOf(callres2(leafEncoders[keyOf(err)], ctx, err)))
 //@   ensures (!typeis(err, *opaqueLeaf) && !typeis(err, *opaqueLeafCauses) && !leafEncoders.has(keyOf(err))) ==> leafOf(result).Message == msg(err) && leafOf(result).Details.ReportablePayload == safeDetailsOf(err)
-//@   loop 1: invariant forall j int :: 0 <= j && j < $n ==> cs[j] != nil && deref(cs[j]) == encOf(causes[j])
+//@   loop 1: invariant forall j int :: 0 <= j && j < $n ==> cs[j] != nil && deref(cs[j]) == encOf(causes[j]) && complete(deref(cs[j]))
